@@ -29,7 +29,8 @@ RE_NAMES = [('negSign', 'negative_number_sign_regex'), ('dozen', 'dozen_regex'),
             ('digitNum', 'digit_num_regex'), ('percentage', 'percentage_regex'), ('percentageNum', 'percentage_num_regex'),
             ('doubleAndRound', 'double_and_round_regex'), ('fracSplit', 'frac_split_regex'), ('point', 'point_regex'),
             ('speGetNumber', 'spe_get_number_regex'), ('digitalNumber', 'digital_number_regex')]
-W = {'zh-cn': 'zh', 'ja-jp': 'ja'}
+W = {'zh-cn': 'zh', 'ja-jp': 'ja'}      # driver configuration names; `probe_variant` appends 'fx' for the repaired tree
+PROBE = '零点三'      # add_point_value (findings/numcjk/point-value-float.diff): '0.3'; as first found: '0.30000000000000004'
 _st = {}
 
 
@@ -52,6 +53,24 @@ def setup():
     _st.update(regex=regex, ER=ExtractResult, numlib=numlib, numerals=numerals,
                parser={'zh-cn': zh, 'ja-jp': CJKNumberParser(JapaneseNumberParserConfiguration())})
     return _st
+
+
+def probe_variant(ctx):
+    """Which variant of the point-value computation does the working tree follow? Decided on the fixed probe input
+    through `dou_parse` (Chinese configuration; the method is shared), never from the results under comparison."""
+    st = setup()
+    p = st['parser']['zh-cn']
+    got = p.dou_parse(make_er(st, PROBE, 'DoubleChi')).resolution_str
+    fx = {'0.3': True, '0.30000000000000004': False}.get(got)
+    if fx is None:
+        ctx.report('correspondence', 'numcjk-point-variant', 'dou_parse(%r) resolves to %r: neither variant of the model' % (PROBE, got),
+                   failing_input={'probe': PROBE, 'implementation': got})
+        fx = False
+    for cu in list(W):
+        W[cu] = W[cu][:2] + ('fx' if fx else '')
+    ctx.extra['numcjk_point_value_variant'] = ('repaired (add_point_value: Decimal sum, one float conversion)' if fx
+                                               else 'as first found (0.1 * d summed in binary floating point)')
+    return fx
 
 
 # ---------------------------------------------------------------- canonical forms
@@ -645,6 +664,7 @@ def pipeline(ctx):
 
 def unit(ctx):
     setup()
+    probe_variant(ctx)
     texts = {cu: gen_texts(ctx, cu) for cu in ('zh-cn', 'ja-jp')}
     for cu, lst in texts.items():
         ctx.extra['numcjk_texts_' + cu] = len(lst)
